@@ -36,14 +36,20 @@ def _scenario(draw, tier):
     ops = []
     for _ in range(draw(st.integers(1, 6))):
         if cfg["kind"] == "ensemble":
-            k = draw(st.sampled_from(["advance", "advance", "restart"]))
-            if k == "advance":
+            k = draw(st.sampled_from(["advance", "advance", "restart", "advance", "advance", "restart", "interrupt"]))
+            if k == "interrupt":
+                ops.append(["interrupt", draw(st.sampled_from([1, 2, 4])), draw(st.integers(1, 30))])
+            elif k == "advance":
                 ops.append(["advance", lc.maybe_long(draw, draw(st.sampled_from([0, 1, 2, 3, 6])), cfg, sizes=_LONG)])
             else:
                 ops.append(["restart"])
         else:
-            k = draw(st.sampled_from(["step", "advance", "advance", "exchange", "restart", "scribble"]))
-            if k == "step":
+            k = draw(st.sampled_from(["step", "advance", "advance", "exchange", "restart", "scribble", "step", "advance", "advance",
+                                      "exchange", "restart", "interrupt"]))
+            if k == "interrupt":
+                # an advance that the posterior interrupts by raising (an error, Ctrl-C); the caller keeps the chain and reads it
+                ops.append(["interrupt", draw(st.sampled_from([1, 3, 12])), draw(st.integers(1, 40))])
+            elif k == "step":
                 ops.append(["step"])
             elif k == "advance":
                 ops.append(["advance", lc.maybe_long(draw, draw(st.sampled_from([0, 1, 2, 5, 11, 30, 64])), cfg, sizes=_LONG)])
@@ -234,6 +240,9 @@ def execute(sc):
                         lc.op_step(h)
                     elif name == "advance":
                         lc.op_advance(h, op[1])
+                    elif name == "interrupt":
+                        if lc.op_interrupted_advance(h, op[1], op[2]):
+                            stats["probe_operation_interrupted_by_the_posterior"] += 1
                     elif name == "exchange":
                         g = np.random.Generator(np.random.PCG64([op[1], 17]))
                         pos = h.foreign_point(h.target.draw(g, h.T if cfg["target"]["kind"] != "banana" else 1.0))
@@ -335,7 +344,7 @@ def execute(sc):
     for k2, v in c.stats.items():
         stats[k2] += v
     nontrivial = stats["readouts"] + stats["intervals"] > 0 and any(
-        o[0] in ("step", "exchange") or (o[0] == "advance" and o[1] > 0) for o in sc["ops"])
+        o[0] in ("step", "exchange") or (o[0] in ("advance", "interrupt") and o[1] > 0) for o in sc["ops"])
     return dict(violations=V, stats=dict(stats), digest=digest(sc), nontrivial=bool(nontrivial),
                 shape="%s/%s" % (cfg["kind"], ",".join(o[0] for o in sc["ops"])), sim_seconds=0.0)
 
@@ -372,7 +381,7 @@ def run_job(job):
 def describe():
     return dict(
         rule=("Hypothesis-generated E1 histories (all five sampler classes; steps, advances, exchanges installing foreign "
-              "points, save/load restarts) with seeded burn/thin/interval/sample-count queries after every operation, including "
+              "points, save/load restarts, advances interrupted by the posterior raising an error / StopIteration / KeyboardInterrupt) with seeded burn/thin/interval/sample-count queries after every operation, including "
               "burn >= length, burn = length-1, thin > length, burn up to 2047 / thin up to 333 and chains of more than 4096 rows. Model = rows read at burn=0, thin=1. Non-trivial = at least one "
               "read-out query on a chain that took at least one step; distinct = distinct scenario digest."),
         real_vs_stub=dict(real=["get_sample/get_parameter/get_probabilities/get_interval/get_marginal of every sampler class",
